@@ -214,6 +214,9 @@ func (s *Server) handleConnection(conn net.Conn) {
 		}
 	}()
 
+	// Replies are written with a deadline (see replyConn)
+	conn = replyConn{conn}
+
 	scanner := bufio.NewScanner(conn)
 
 	// Set read deadline to prevent hanging connections
@@ -280,6 +283,20 @@ func (s *Server) handleConnection(conn net.Conn) {
 	if err := scanner.Err(); err != nil {
 		log.Printf("Scanner error: %v", err)
 	}
+}
+
+// replyConn bounds the time a reply may take. A client that does not take a reply
+// within 30 seconds is gone or wedged: the connection is closed, so that the handler
+// ends (its next read fails) instead of blocking in Write for ever.
+type replyConn struct{ net.Conn }
+
+func (c replyConn) Write(b []byte) (int, error) {
+	_ = c.Conn.SetWriteDeadline(time.Now().Add(30 * time.Second))
+	n, err := c.Conn.Write(b)
+	if err != nil {
+		_ = c.Conn.Close()
+	}
+	return n, err
 }
 
 // handleAuth handles authentication requests
